@@ -274,14 +274,21 @@ func NormCDF(z float64) *big.Float {
 	// Phi(z) = erfc(-z/sqrt2)/2; do the division by sqrt(2) in high precision
 	// by using erfc's series on the exact argument: here we accept the
 	// float64 rounding of z/sqrt2 only through a first-order correction.
-	return normCDFBig(nf(256).SetFloat64(z))
+	return NormCDFBig(nf(256).SetFloat64(z))
 }
 
-// normCDFBig evaluates Phi at a big.Float argument (|z| <= 60).
-func normCDFBig(z *big.Float) *big.Float {
+// NormCDFBig evaluates Phi at a big.Float argument (|z| <= 60) with ~100 good bits relative.
+func NormCDFBig(z *big.Float) *big.Float {
 	const out = 160
 	zf, _ := z.Float64()
 	az := math.Abs(zf)
+	if az > 60 {
+		// below 1e-780 in the lower tail: return the limit (absolute error < 1e-700)
+		if zf > 0 {
+			return nf(out).SetInt64(1)
+		}
+		return nf(out)
+	}
 	extra := uint(az*az*1.4427) + 64
 	wp := out + extra + 96
 	t := nf(wp).Set(z)
